@@ -373,6 +373,17 @@ def gen_device(tier: str) -> Iterator[dict]:
                 runs = [{"passes": len(s), "adv": s, "t0": t0} for t0 in (0, 5) for s in schedules(horizon, 150, 1, False)]
                 yield {"id": f"A16:{style}:{wiring}:loop{int(loop)}", "space": "A", "src": anim_script(style, text, 16, 2, loop, 150, wiring), "runs": runs,
                        "anims": [{"style": style, "len": len(text), "loop": loop, "speed": 150, "row": 0}], "geom": [16, 2], "lcds": 1}
+    # negative speeds (constant and run-time): the host treats them as 0 = a step on every tick
+    for style in STYLES:
+        for loop in (False, True):
+            for form in ("-5", "neg"):
+                extra = ['neg = analog_read("A0") - 50'] if form == "neg" else []
+                decl_l = "lcd = LCD(i2c_addr=39, cols=4, rows=2)"
+                setup = [decl_l, 'lcd.line(1, "ZZZZ")'] + extra + [f'lcd.animate("{style}", 0, "abcdef", speed_ms={form}, loop={loop})']
+                horizon = bound_steps(6, 4) + 4
+                yield {"id": f"AN:{style}:loop{int(loop)}:{form}", "space": "A", "src": common.script(setup, ['mon.write("u")'], prologue=PRO),
+                       "runs": [{"passes": horizon, "adv": [7] * horizon, "t0": 0, "ar": {"A0": [0]}}],
+                       "anims": [{"style": style, "len": 6, "loop": loop, "speed": 0, "row": 0}], "geom": [4, 2], "lcds": 1, "min_steps": 0 if loop else (1 if style in ("blink", "bounce") else 2), "frames_only": True}
     # long texts (position counters beyond one byte): every style, non-looping, must still finish within the linear bound
     for style in STYLES:
         for length in (255, 256, 300):
